@@ -563,6 +563,14 @@ Proof.
     apply volume_safety_inf_no_faces in El; [|apply Hok; assumption]. rewrite El in Hin. destruct Hin.
 Qed.
 
+(** the overload with a search radius is conservative too, and never smaller than the plain safety *)
+Theorem find_safety_max_conservative (levels : list (level (T:=R))) m rho :
+  (forall l, In l levels -> faces_ok (lv_faces l) (lv_pos l)) ->
+  find_safety_max levels m = Some rho ->
+  (forall l, In l levels -> forall s, In s (lv_faces l) -> ball_clear s (lv_pos l) rho) /\
+  find_safety levels = Some rho.
+Proof. intros Hok Hs. split; [eapply min_levels_conservative; eauto|exact Hs]. Qed.
+
 (** the non-simple fallback *)
 Theorem zero_is_conservative faces p s : volume_safety false faces p = Some 0 /\ ball_clear s p 0.
 Proof. split; [reflexivity|apply ball_clear_zero]. Qed.
